@@ -1,1 +1,258 @@
-(* placeholder: to be written *)
+(** C18 — Governance: status from time and tallies; one vote per address; exact fee escrow.
+    Statements only; proofs are in Proofs/GovernanceProofs.v.
+
+    Reading guide.  [GovInv g] is the invariant of every state reachable from deployment
+    ([C18_reach]); [get_prop g id = Some p] with [pr_live p = true] says that proposal [id] exists and
+    was not cancelled; [view_status] is the model of the view getProposalStatus; [bal g a] is account
+    [a]'s balance of the fee token ([SELF] = the governance contract); [g_burned] the amount burned. *)
+From MX Require Import Base.Prelude Gen.Params Model.Governance Proofs.GovernanceProofs.
+
+(** ------------------------------------------------------------------ reachable states *)
+(** Any interleaving of any length of propose / vote / cancel / withdrawDeposit / block advance /
+    energy changes / collector updates / donations / configuration changes, by any callers, from any
+    deployment whose withdraw percentage is at most 100 % (what [init] accepts).  Failed transactions
+    leave the state unchanged. *)
+Theorem C18_reach : forall me mf q d p w blk bals ops,
+  0 <= w <= FULL /\ 0 <= p -> NoDup (akeys bals) -> 0 <= aget bals SELF ->
+  GovInv (run (init_gov me mf q d p w blk bals) ops).
+Proof. exact reach_inv. Qed.
+Print Assumptions C18_reach.
+
+Theorem C18_step : forall g op g' o, step g op = Ok (g', o) -> GovInv g -> GovInv g'.
+Proof. intros g op g' o H I. exact (proj1 (step_inv g op g' o H I)). Qed.
+Print Assumptions C18_step.
+
+(** ------------------------------------------------------------------ clause 1: status *)
+(** The status view is the documented function of block height and tallies, with the thresholds as
+    rational conditions (cross-multiplied, no integer division):
+      quorum reached   :  quorum * FULL >= minimum_quorum * total_energy      (FULL = FULL_PERCENTAGE = 10000)
+      up exceeds half  :  2 * up > up + down + veto + abstain
+      veto exceeds 1/3 :  3 * veto > up + down + veto + abstain
+    The code decides with floor(tot/2) and floor(tot/3); the proof shows that these integer tests are
+    equivalent to the rational ones for every input ([C18_integer_thresholds]), so no input exists on
+    which the code's rounding departs from the documented strict / non-strict conditions. *)
+Theorem C18_status : forall g id p, GovInv g -> get_prop g id = Some p -> pr_live p = true ->
+  let blk := g_block g in
+  let vs := pr_start p + pr_delay p in
+  let ve := vs + pr_period p in
+  let tot := pr_up p + pr_down p + pr_veto p + pr_abstain p in
+  let quorum_reached := pr_quorum p * FULL >= pr_minq p * pr_total p in
+  let s := view_status g id in
+  (s = GOV_STATUS_Pending <-> blk < vs) /\
+  (s = GOV_STATUS_Active <-> vs <= blk < ve) /\
+  (s = GOV_STATUS_Succeeded <-> ve <= blk /\ quorum_reached /\ 2 * pr_up p > tot /\ ~ 3 * pr_veto p > tot) /\
+  (s = GOV_STATUS_DefeatedWithVeto <-> ve <= blk /\ 3 * pr_veto p > tot) /\
+  (s = GOV_STATUS_Defeated <-> ve <= blk /\ ~ 3 * pr_veto p > tot /\ ~ (quorum_reached /\ 2 * pr_up p > tot)) /\
+  s <> GOV_STATUS_None.
+Proof. exact status_documented. Qed.
+Print Assumptions C18_status.
+
+Theorem C18_status_none : forall g id,
+  view_status g id = GOV_STATUS_None <-> (forall p, get_prop g id = Some p -> pr_live p = false).
+Proof. exact view_status_none. Qed.
+Print Assumptions C18_status_none.
+
+(** the two integer tests of views.rs against the rational conditions, for all integers *)
+Theorem C18_integer_thresholds : forall x tot,
+  ((tot / 2 <? x) = true <-> tot < 2 * x) /\ ((tot / 3 <? x) = true <-> tot < 3 * x).
+Proof. intros x tot. split; [apply half_equiv | apply third_equiv]. Qed.
+Print Assumptions C18_integer_thresholds.
+
+(** ------------------------------------------------------------------ clause 2: votes *)
+(** the smoothing function is the floor square root: specified, and unique *)
+Theorem C18_isqrt : forall x, 0 <= x ->
+  0 <= isqrt x /\ isqrt x * isqrt x <= x < (isqrt x + 1) * (isqrt x + 1) /\
+  (forall r, 0 <= r -> r * r <= x < (r + 1) * (r + 1) -> isqrt x = r).
+Proof.
+  intros x Hx. destruct (isqrt_spec x Hx) as [A B]. split; [exact A|]. split; [exact B|].
+  intros r Hr H. apply isqrt_unique; assumption.
+Qed.
+Print Assumptions C18_isqrt.
+
+(** A successful vote: the proposal was Active, the address had not voted on it and now has, its
+    energy e is positive, exactly the chosen tally grows by floor(sqrt e) (the other three stay), the
+    quorum grows by e, the total-energy snapshot is taken from the collector by the first voter only,
+    nothing else of the proposal, no other proposal and no balance changes. *)
+Theorem C18_vote : forall g c id kind g' o,
+  ep_vote g c id kind = Ok (g', o) ->
+  exists p p',
+    get_prop g id = Some p /\ pr_live p = true /\
+    view_status g id = GOV_STATUS_Active /\ status_of (g_block g) p = GOV_STATUS_Active /\
+    has_voted g c id = false /\ has_voted g' c id = true /\
+    0 <= kind < GOV_VOTE_COUNT /\ 0 < energy_of g c /\
+    get_prop g' id = Some p' /\
+    (forall k, 0 <= k < GOV_VOTE_COUNT ->
+       tally p' k = tally p k + (if k =? kind then isqrt (energy_of g c) else 0)) /\
+    pr_quorum p' = pr_quorum p + energy_of g c /\
+    pr_total p' = (if pr_quorum p =? 0 then g_total g else pr_total p) /\
+    pr_withdrawn p' = pr_withdrawn p /\ same_snapshot p p' /\
+    g_voted g' = g_voted g ++ [(c, id)] /\
+    g_props g' = upd (g_props g) (Z.to_nat (id - 1)) p' /\
+    (forall id2, id2 <> id -> get_prop g' id2 = get_prop g id2) /\
+    g' = put_prop (set_voted g (g_voted g ++ [(c, id)])) id p' /\ o = [].
+Proof. exact vote_spec. Qed.
+Print Assumptions C18_vote.
+
+Theorem C18_vote_only_while_active : forall g c id kind,
+  view_status g id <> GOV_STATUS_Active -> is_ok (ep_vote g c id kind) = false.
+Proof. exact vote_needs_active. Qed.
+Print Assumptions C18_vote_only_while_active.
+
+(** one vote per address per proposal: whatever happens in between, a second vote is rejected *)
+Theorem C18_never_votes_twice : forall g c id k1 g1 o1 ops k2,
+  ep_vote g c id k1 = Ok (g1, o1) -> is_ok (ep_vote (run g1 ops) c id k2) = false.
+Proof. exact never_votes_twice. Qed.
+Print Assumptions C18_never_votes_twice.
+
+(** ... and as a statement about whole histories: take the successful votes of any history from
+    deployment ([ballots]: voter, proposal, kind, the voter's energy at that moment).  No (voter,
+    proposal) pair occurs twice, and the tallies of every live proposal are exactly the sums over these
+    single ballots: floor(sqrt energy) into the tally of the ballot's kind, energy into the quorum. *)
+Theorem C18_tallies_are_sums_of_single_votes : forall me mf q d p w blk bals ops,
+  let g0 := init_gov me mf q d p w blk bals in
+  let log := ballots g0 ops in
+  NoDup (map b_key log) /\
+  map b_key log = g_voted (run g0 ops) /\
+  forall id x, get_prop (run g0 ops) id = Some x -> pr_live x = true ->
+    (forall k, 0 <= k < GOV_VOTE_COUNT -> tally x k = sum_power log id k) /\
+    pr_quorum x = sum_energy log id.
+Proof. exact history_votes. Qed.
+Print Assumptions C18_tallies_are_sums_of_single_votes.
+
+(** ------------------------------------------------------------------ clause 3: the fee *)
+(** cancel: proposer only, Pending only; the whole fee goes back to the proposer, nothing is burned,
+    no other account moves, the proposal is cleared (status None from then on) *)
+Theorem C18_cancel : forall g c id g' o, GovInv g -> ep_cancel g c id = Ok (g', o) ->
+  exists p, get_prop g id = Some p /\ escrowed p = true /\
+    view_status g id = GOV_STATUS_Pending /\ g_block g < pr_start p + pr_delay p /\
+    c = pr_proposer p /\
+    bal g' SELF = bal g SELF - pr_fee p /\
+    bal g' (pr_proposer p) = bal g (pr_proposer p) + pr_fee p /\
+    (forall a, a <> SELF -> a <> pr_proposer p -> bal g' a = bal g a) /\
+    g_burned g' = g_burned g /\
+    get_prop g' id = Some pr_cleared /\ view_status g' id = GOV_STATUS_None /\
+    (forall id2, id2 <> id -> get_prop g' id2 = get_prop g id2).
+Proof. exact cancel_fee. Qed.
+Print Assumptions C18_cancel.
+
+Theorem C18_cancel_rejected : forall g c id, GovInv g ->
+  (view_status g id <> GOV_STATUS_Pending \/ exists p, get_prop g id = Some p /\ c <> pr_proposer p) ->
+  is_ok (ep_cancel g c id) = false.
+Proof. exact cancel_rejected. Qed.
+Print Assumptions C18_cancel_rejected.
+
+(** withdrawDeposit: on Succeeded / Defeated the proposer gets the whole fee; on DefeatedWithVeto the
+    proposer gets refund = floor(percentage * fee / 10000) (stated as refund*10000 <= percentage*fee <
+    (refund+1)*10000) and fee - refund is burned; in all cases exactly [fee] leaves the contract
+    (refund + burned = fee), no other account moves, and the proposal is marked withdrawn. *)
+Theorem C18_withdraw : forall g c id g' o, GovInv g -> ep_withdraw g c id = Ok (g', o) ->
+  exists p refund, get_prop g id = Some p /\ escrowed p = true /\
+    view_status g id = status_of (g_block g) p /\
+    (((status_of (g_block g) p = GOV_STATUS_Succeeded \/ status_of (g_block g) p = GOV_STATUS_Defeated) /\
+      c = pr_proposer p /\ refund = pr_fee p)
+     \/ (status_of (g_block g) p = GOV_STATUS_DefeatedWithVeto /\
+         refund * FULL <= pr_wpct p * pr_fee p < (refund + 1) * FULL)) /\
+    0 <= refund <= pr_fee p /\
+    bal g' SELF = bal g SELF - pr_fee p /\
+    bal g' (pr_proposer p) = bal g (pr_proposer p) + refund /\
+    (forall a, a <> SELF -> a <> pr_proposer p -> bal g' a = bal g a) /\
+    g_burned g' = g_burned g + (pr_fee p - refund) /\
+    get_prop g' id = Some (pr_set_withdrawn p) /\
+    (forall id2, id2 <> id -> get_prop g' id2 = get_prop g id2).
+Proof. exact withdraw_fee. Qed.
+Print Assumptions C18_withdraw.
+
+Theorem C18_withdraw_rejected : forall g c id, GovInv g ->
+  ((view_status g id <> GOV_STATUS_Succeeded /\ view_status g id <> GOV_STATUS_Defeated /\
+    view_status g id <> GOV_STATUS_DefeatedWithVeto)
+   \/ (view_status g id <> GOV_STATUS_DefeatedWithVeto /\ exists p, get_prop g id = Some p /\ c <> pr_proposer p)) ->
+  is_ok (ep_withdraw g c id) = false.
+Proof. exact withdraw_rejected. Qed.
+Print Assumptions C18_withdraw_rejected.
+
+(** the refunds are always available: the contract holds the fee of every proposal in escrow, so the
+    proposer's cancel (while Pending) and the withdrawal (once decided) cannot fail *)
+Theorem C18_cancel_available : forall g id p, GovInv g -> get_prop g id = Some p -> pr_live p = true ->
+  status_of (g_block g) p = GOV_STATUS_Pending -> is_ok (ep_cancel g (pr_proposer p) id) = true.
+Proof. exact cancel_succeeds. Qed.
+Print Assumptions C18_cancel_available.
+
+Theorem C18_withdraw_available : forall g c id p, GovInv g -> get_prop g id = Some p -> escrowed p = true ->
+  ((status_of (g_block g) p = GOV_STATUS_Succeeded \/ status_of (g_block g) p = GOV_STATUS_Defeated) /\ c = pr_proposer p
+   \/ status_of (g_block g) p = GOV_STATUS_DefeatedWithVeto) ->
+  is_ok (ep_withdraw g c id) = true.
+Proof. exact withdraw_succeeds. Qed.
+Print Assumptions C18_withdraw_available.
+
+(** at most once.  [escrowed p] (live and not withdrawn) is the flag "the fee is still in escrow".
+    Per step: proposals never vanish, a flag that is down stays down, a live proposal's fee / proposer /
+    snapshots never change, and the flag goes down only by the proposer's cancel or a withdrawDeposit of
+    that very proposal (whose amounts are fixed by C18_cancel / C18_withdraw). *)
+Theorem C18_escrow_flag_one_way : forall g op g' o, step g op = Ok (g', o) -> GovInv g ->
+  forall id p, get_prop g id = Some p ->
+  exists p', get_prop g' id = Some p' /\
+    (escrowed p = false -> escrowed p' = false) /\
+    (pr_live p' = true -> same_snapshot p p') /\
+    (escrowed p = true -> escrowed p' = false ->
+       op = Cancel (pr_proposer p) id \/ exists c, op = Withdraw c id).
+Proof. exact escrow_one_way. Qed.
+Print Assumptions C18_escrow_flag_one_way.
+
+(** ... along whole histories: once the fee of a proposal has left, every later cancel / withdraw on it fails *)
+Theorem C18_fee_never_leaves_twice : forall g id p ops c, GovInv g -> get_prop g id = Some p -> escrowed p = false ->
+  is_ok (ep_cancel (run g ops) c id) = false /\ is_ok (ep_withdraw (run g ops) c id) = false.
+Proof. exact fee_never_leaves_twice. Qed.
+Print Assumptions C18_fee_never_leaves_twice.
+
+(** no other operation takes fee tokens out of the contract or burns any *)
+Theorem C18_outflow_only_by_cancel_or_withdraw : forall g op g' o, step g op = Ok (g', o) ->
+  (forall c id, op <> Cancel c id) -> (forall c id, op <> Withdraw c id) ->
+  bal g SELF <= bal g' SELF /\ g_burned g' = g_burned g.
+Proof. exact outflow_only. Qed.
+Print Assumptions C18_outflow_only_by_cancel_or_withdraw.
+
+(** escrow accounting along every history from deployment (contract starting empty): the contract's
+    balance is exactly the sum of the fees still in escrow plus what was donated to it by plain
+    transfers, and the fee token is conserved (all balances + burned = initial supply). *)
+Theorem C18_escrow_accounting : forall me mf q d p w blk bals ops,
+  0 <= w <= FULL /\ 0 <= p -> NoDup (akeys bals) -> aget bals SELF = 0 ->
+  let g0 := init_gov me mf q d p w blk bals in
+  bal (run g0 ops) SELF = escrow_sum (g_props (run g0 ops)) + donated g0 ops /\
+  asum (g_bal (run g0 ops)) + g_burned (run g0 ops) = asum bals.
+Proof. exact reach_escrow. Qed.
+Print Assumptions C18_escrow_accounting.
+
+Theorem C18_escrow_backed : forall g id p, GovInv g -> get_prop g id = Some p -> escrowed p = true ->
+  pr_fee p <= bal g SELF.
+Proof. exact escrow_backed. Qed.
+Print Assumptions C18_escrow_backed.
+
+(** ------------------------------------------------------------------ non-vacuity
+    A concrete history: four proposals (fee 3*10^24 + 7, 33.33 % refund on veto); #1 cancelled while
+    pending, #2 succeeds at 2*up = tot + 1, #3 is vetoed at 3*veto = tot + 1 (refund split inexact),
+    #4 is defeated at exactly half; second votes, foreign cancels and repeated withdrawals are
+    rejected; all fees leave escrow exactly once. *)
+Definition c18_fee : Z := 3000000000000000000000007.
+Definition c18_ops : list gop :=
+  [SetEnergy 1 100; SetEnergy 2 81; SetEnergy 3 17; SetEnergy 4 400; Sync 1; Sync 2;
+   Propose 1 1 c18_fee 0 0; Cancel 2 1; Cancel 1 1; Cancel 1 1;
+   Propose 1 1 c18_fee 1 1000; Propose 2 1 c18_fee 0 0; Propose 3 1 c18_fee 0 0;
+   Vote 1 2 0; Block 5; Vote 1 2 0; Vote 1 2 1; Vote 2 2 1;
+   Vote 3 3 2; Vote 4 4 0; SetEnergy 1 50; Vote 1 3 0;
+   SetEnergy 2 400; Vote 2 4 1; Vote 4 4 1;
+   Withdraw 1 2; Block 14400;
+   Withdraw 2 2; Withdraw 1 2; Withdraw 1 2;
+   Withdraw 4 3; Withdraw 2 3;
+   Withdraw 1 4; Withdraw 3 4; Cancel 3 4].
+Definition c18_g0 : gov := init_gov 0 c18_fee 1000 5 14400 3333 10 [(1, c18_fee * 3); (2, c18_fee * 3); (3, c18_fee * 3); (4, 0)].
+Example C18_nonvacuous :
+  let g := run c18_g0 c18_ops in
+  map (view_status g) [1; 2; 3; 4; 5] =
+    [GOV_STATUS_None; GOV_STATUS_Succeeded; GOV_STATUS_DefeatedWithVeto; GOV_STATUS_Defeated; GOV_STATUS_None] /\
+  view_votes g 2 = [10; 9; 0; 0; 181] /\ view_votes g 3 = [7; 0; 4; 0; 67] /\ view_votes g 4 = [20; 20; 0; 0; 800] /\
+  bal g SELF = 0 /\ bal g 1 = c18_fee * 3 /\ bal g 3 = c18_fee * 3 /\
+  bal g 2 = c18_fee * 2 + 999900000000000000000002 /\ g_burned g = c18_fee - 999900000000000000000002 /\
+  map (fun k => is_ok (step (run c18_g0 (firstn k c18_ops)) (nth k c18_ops (Block 0))))
+      (seq 0 35) =
+    map (fun k => negb (existsb (Nat.eqb k) [7; 9; 13; 16; 24; 25; 27; 29; 31; 32; 34]%nat)) (seq 0 35).
+Proof. vm_compute. repeat split. Qed.
